@@ -28,7 +28,11 @@ patterns, `let .. else`, explicit matches for `?`). In a **fourth round** twenty
 are not refactorings of the property's logic*: `Cxx-8`, a maintenance / performance / lint-style commit (`with_capacity` / `reserve`, needless
 clones and collects removed, in-place updates, clippy-style rewrites, `write_str`, `#[must_use]`, hoisted invariants, `&[T]` for `&Vec<T>`) and
 `Cxx-9`, a small orthogonal *addition* next to the property's code (a new accessor / `Display` / `From` impl, a bounded variant of
-`apply_fixpoint`, new unit tests, a `debug_assert!`). The %d patches are kept in `probes/<id>/` and are negative controls (`R-<id>`) of the
+`apply_fixpoint`, new unit tests, a `debug_assert!`). In a **fifth round** twenty more sub-agents wrote a *type-level / interface* commit
+(`Cxx-10`: type aliases, a private struct or enum for a tuple / a pair of booleans / an operator subset, `impl Trait` parameters, a nested
+function turned into the method of a private trait, `TryFrom` <-> an associated function, helpers moved into an `impl`) and an *expression-style*
+commit (`Cxx-11`: itertools adaptors - `format`, `join`, `sorted`, `tuple_windows`, `zip_eq`, `fold_ok` -, `std::iter::zip` / `successors`,
+`Option` / `Result` combinators, `retain`, `mem::take`, `extend_from_slice`, `find` over an unbounded range for a counter loop). The %d patches are kept in `probes/<id>/` and are negative controls (`R-<id>`) of the
 self-test.
 
 **First runs: 28 of the first 30 refactorings, 12 of the next 15 (C10, C11, C14, C17, C20) and 12 of the last 15 (C12, C15, C16, C18, C19) made at
@@ -150,11 +154,38 @@ name chooser, in `C19-9` the number of parts of a broken equivalence), and a wro
 anthem panic on some input while every test passes. The report names the function and the kind of site; the remedy is one line in the discharge
 table with the invariant.
 
+**Fifth round, first run: 28 of the 40 commits made at least one check fail** (10 of the 20 interface commits, 18 of the 20 expression-style
+commits; several by the same construct: `sorted_unstable().tuple_windows()` for the symbol chain failed five, the predicate finder as a trait
+method three, `Itertools::format` three). Removed:
+
+* **Library spellings of what the rules already knew**: `Itertools::sorted[_unstable]` is the sorted list, `tuple_windows` its consecutive
+  pairs (C12 chain); `x.iter().map(..).format(", ")` printed through `{}` is every element with the separator before all but the first
+  (recorded as such by the evaluator; C09 / C14 / C15 list printers); `std::iter::zip(a, b)`; `mem::take`; `Option::unwrap_or_default` for the
+  default direction; `extend_from_slice` next to `append` / `extend` in the outline sequencing; `retain(|v| !V.contains(v))` for the
+  `shift_remove` loop of `free_variables`; `Iterator::flatten` over literal Options; an Option iterated inside a `chain` (its value when Some);
+  `Option::filter` in a `let .. else` (Some and the filter holds); `(n..).map(format).find(|c| free(c))` for the chooser's counter loop
+  (truth table of the closure, the range must be unbounded).
+* **Anchors by role, again**: the function that finds the defined predicate (free, nested, or the method of a private trait), the subsort
+  test (a function of two variables, or a trait method on sorts and variables - kept opaque when its callers are evaluated), the decoder of the
+  prover's output (`TryFrom` or an associated function), conversions introduced later (`impl From<TotalFunction> for BinaryOperator`: inlined as
+  helpers), the operator argument when it got an enum of its own (no catch-all arm left to discharge).
+* **Result types of their own**: the two induction obligations as a struct with named fields (which field is the base case is read off the
+  values), `Files::specification` answering with its own two-variant enum (the variant that carries a program file stands for `Either::Left`;
+  fixed by the accessor table, used by the tag rule), accessors returning `Option<&Path>` through `as_path`.
+* **The taken-predicates set in comprehension form** (C13 / C02): a loop per theory and one `chain` over both lists flat-mapped are the same
+  three sources.
+* One gap of *soundness* closed on the way: `zip_eq`, `swap_remove`, `split_off`, `Vec::remove`, `split_at`, `exactly_one` panic by contract
+  and are now panic sites of C16 (none on the pinned tree); probe `C04-11`, which zips the atom's terms with the fresh names through `zip_eq`,
+  is therefore flagged by C16 **by design** (the invariant `len(names) == arity` has to be entered) - and its three-way `multiunzip` is not
+  seen through by C01 either.
+
 After these changes **%d of the %d probes are silent on all 20 checks**; the other %d still fail at least one check although the property
 holds. They are listed below as *known fail-closed cases*: restructurings that need algebraic or inductive knowledge the extractors do not have
 (a recursion over the quantifier prefix rewritten as peel-loop + fold), option flags and portfolio tables copied into a new struct whose
-methods read them, a whole function (`completion`) rebuilt around a new type whose `&mut self` methods do the steps, or a new `debug_assert!`
-(a panic site C16 cannot discharge by itself, see above).
+methods read them, a whole function (`completion`) rebuilt around a new type whose `&mut self` methods do the steps, a new `debug_assert!` or `zip_eq`
+(panic sites C16 cannot discharge by itself, see above), a classification enum returned by a helper with early returns and matched by its
+caller (C08-10: a decision on a decision through `return`), a `format_with` callback printer (C06-11), `filter_ok` / `map_ok` / `fold_ok` over the
+directory walk (C20-11), or `completion` rebuilt around a `Components` struct once more (C04-10).
 A failing check on such an edit reports an `ANALYSIS-GAP` or a template mismatch naming the function; it is the one known way these
 checks can fail on code where the property still holds, and the reason is in the report.
 
